@@ -1,22 +1,31 @@
 //! C07, aggregator route: the real `SignerRegisterer` of a running aggregator (registration round
 //! open) receives all sequences of ≤ L registrations over a small alphabet: honest registrations,
 //! a pool registering ANOTHER pool's key under its own operational certificate and KES signature,
-//! registrations announcing a wrong / missing KES evolution, valid registrations whose party id
-//! field names another pool (or nothing, or an unknown pool). The verification-key store is
-//! inspected after every step.
+//! the same with a proof of possession re-encoded by adding a point of the cofactor subgroup,
+//! honest registrations (KES signature made at the chain-derived evolution) ANNOUNCING another /
+//! no / an extreme KES evolution, valid registrations whose party id field names another pool (or
+//! nothing, or an unknown pool). The verification-key store is inspected after every step.
+//!
+//! A second family runs PAIRS of registrations concurrently through the real
+//! `MithrilSignerRegistrationLeader::register_signer` (built here from the running aggregator's
+//! verification-key store and a real `MithrilSignerRegistrationVerifier`), under every interleaving
+//! of the two requests around the one suspension point the harness owns: the injected
+//! `SignerRecorder` (in production a database write awaited between the duplicate check and the save).
 
-use std::collections::BTreeMap;
+use std::collections::{BTreeMap, HashMap};
+use std::sync::{Arc, Mutex};
 
 use mc_core::explore::RunResult;
 use mc_core::{Ctx, Report, Violation, par_map, sequences};
-use mithril_common::crypto_helper::{KesSigner, KesSignerStandard};
+use mithril_aggregator::services::{MithrilSignerRegistrationLeader, MithrilSignerRegistrationVerifier, SignerRecorder, SignerRegisterer, SignerRegistrationRoundOpener};
+use mithril_common::crypto_helper::{KesEvolutions, KesSigner, KesSignerStandard, ProtocolSignerVerificationKeyForConcatenation};
 use mithril_common::entities::{Signer, SignerWithStake};
 use mithril_common::protocol::SignerBuilder;
 use serde::{Deserialize, Serialize};
 use serde_json::json;
 
 use crate::sys::{Ev, apply_mut, fresh_dir};
-use crate::world::{World, protocol_parameters};
+use crate::world::{CatchUnwind, World, protocol_parameters};
 
 #[derive(Clone, Copy, Debug, Serialize, Deserialize, PartialEq, Eq, Hash)]
 pub enum Reg {
@@ -34,10 +43,91 @@ pub enum Reg {
     /// the same with an empty / unknown party id field
     ClaimedEmpty(usize),
     ClaimedUnknown(usize),
+    /// the honest registration of `pool` (KES signature made at the evolution the chain gives)
+    /// with the ANNOUNCED number of KES evolutions replaced by `value`
+    Announced { pool: usize, value: Option<u64> },
+    /// `StolenKey` where element k1 (`element` = 1) or k2 (2) of the victim's public proof of
+    /// possession is moved by a point of the cofactor subgroup of E(Fp): other bytes, same key,
+    /// the pairing equations still hold
+    StolenKeyAlteredPop { by: usize, of: usize, element: u8 },
+}
+
+/// order of the prime-order subgroup of BLS12-381 (little endian)
+const R_LE: [u8; 32] = [
+    0x01, 0x00, 0x00, 0x00, 0xff, 0xff, 0xff, 0xff, 0xfe, 0x5b, 0xfe, 0xff, 0x02, 0xa4, 0xbd, 0x53, 0x05, 0xd8, 0xa1, 0x09, 0x08, 0xd8, 0x39, 0x33, 0x48,
+    0x7d, 0x9d, 0x29, 0x53, 0xa7, 0xed, 0x73,
+];
+
+/// `compressed + T` for a non-trivial point T = r·P of the cofactor subgroup (P on the curve, not in G1)
+fn add_cofactor_point(compressed: &[u8]) -> Option<[u8; 48]> {
+    use blst::*;
+    unsafe {
+        let mut torsion = None;
+        for i in 1u8..=255 {
+            let mut c = [0u8; 48];
+            c[0] = 0x80;
+            c[47] = i;
+            let mut a = blst_p1_affine::default();
+            if blst_p1_uncompress(&mut a, c.as_ptr()) != BLST_ERROR::BLST_SUCCESS || blst_p1_affine_in_g1(&a) {
+                continue;
+            }
+            let (mut p, mut t) = (blst_p1::default(), blst_p1::default());
+            blst_p1_from_affine(&mut p, &a);
+            blst_p1_mult(&mut t, &p, R_LE.as_ptr(), 255);
+            if !blst_p1_is_inf(&t) {
+                torsion = Some(t);
+                break;
+            }
+        }
+        let torsion = torsion?;
+        let mut a = blst_p1_affine::default();
+        if compressed.len() != 48 || blst_p1_uncompress(&mut a, compressed.as_ptr()) != BLST_ERROR::BLST_SUCCESS {
+            return None;
+        }
+        let (mut p, mut sum) = (blst_p1::default(), blst_p1::default());
+        blst_p1_from_affine(&mut p, &a);
+        blst_p1_add_or_double(&mut sum, &p, &torsion);
+        let mut out = [0u8; 48];
+        blst_p1_compress(out.as_mut_ptr(), &sum);
+        Some(out)
+    }
+}
+
+/// pool `thief` registers `key` under its own certificate, KES-signing it itself at its start period
+fn steal(w: &World, by: usize, key: ProtocolSignerVerificationKeyForConcatenation) -> Option<Signer> {
+    let sf = w.fixture.signers_fixture();
+    let thief = &sf[by];
+    let me: Signer = w.fixture.signers()[by].clone();
+    let kes = KesSignerStandard::new(thief.kes_secret_key_path()?.to_path_buf(), thief.operational_certificate_path()?.to_path_buf());
+    let start = me.operational_certificate.as_ref()?.get_start_kes_period();
+    let (sig, opcert) = kes.sign(&key.to_bytes(), start).ok()?;
+    Some(Signer {
+        verification_key_for_concatenation: key,
+        verification_key_signature_for_concatenation: Some(sig.into()),
+        operational_certificate: Some(opcert.into()),
+        ..me
+    })
+}
+
+/// evolutions (0..64) of the certificate's KES key at which the registration's KES signature
+/// verifies over the registered key bytes — kes-summed-ed25519 directly
+fn signature_evolutions(signer: &Signer) -> Vec<u32> {
+    use kes_summed_ed25519::traits::KesSig;
+    let (Some(sig), Some(cert)) = (&signer.verification_key_signature_for_concatenation, &signer.operational_certificate) else {
+        return vec![];
+    };
+    let pk = cert.get_kes_verification_key();
+    let msg = signer.verification_key_for_concatenation.to_bytes();
+    (0..64u32).filter(|t| sig.verify(*t, &pk, &msg).is_ok()).collect()
+}
+
+/// "signed at a KES evolution within one period of the announced one"
+fn announced_matches_signature(signer: &Signer) -> bool {
+    let Some(a) = signer.kes_evolutions else { return false };
+    signature_evolutions(signer).iter().any(|t| (*t as i128 - a.0 as i128).abs() <= 1)
 }
 
 fn build(w: &World, r: &Reg) -> Option<Signer> {
-    let sf = w.fixture.signers_fixture();
     let honest = |i: usize| -> Signer { w.fixture.signers()[i].clone() };
     Some(match r {
         Reg::Honest(i) => honest(*i),
@@ -46,18 +136,14 @@ fn build(w: &World, r: &Reg) -> Option<Signer> {
         Reg::ClaimedId { by, claims } => Signer { party_id: honest(*claims).party_id, ..honest(*by) },
         Reg::ClaimedEmpty(i) => Signer { party_id: String::new(), ..honest(*i) },
         Reg::ClaimedUnknown(i) => Signer { party_id: "pool1unknownunknownunknownunknownunknownunknownunknown00".to_string(), ..honest(*i) },
-        Reg::StolenKey { by, of } => {
-            let thief = &sf[*by];
-            let victim = honest(*of);
-            let kes = KesSignerStandard::new(thief.kes_secret_key_path()?.to_path_buf(), thief.operational_certificate_path()?.to_path_buf());
-            let start = honest(*by).operational_certificate.as_ref()?.get_start_kes_period();
-            let (sig, opcert) = kes.sign(&victim.verification_key_for_concatenation.to_bytes(), start).ok()?;
-            Signer {
-                verification_key_for_concatenation: victim.verification_key_for_concatenation,
-                verification_key_signature_for_concatenation: Some(sig.into()),
-                operational_certificate: Some(opcert.into()),
-                ..honest(*by)
-            }
+        Reg::Announced { pool, value } => Signer { kes_evolutions: value.map(KesEvolutions), ..honest(*pool) },
+        Reg::StolenKey { by, of } => steal(w, *by, honest(*of).verification_key_for_concatenation)?,
+        Reg::StolenKeyAlteredPop { by, of, element } => {
+            let mut bytes = honest(*of).verification_key_for_concatenation.to_bytes();
+            let range = if *element == 1 { 96..144 } else { 144..192 };
+            let moved = add_cofactor_point(&bytes[range.clone()])?;
+            bytes[range].copy_from_slice(&moved);
+            steal(w, *by, ProtocolSignerVerificationKeyForConcatenation::from_bytes(&bytes).ok()?)?
         }
     })
 }
@@ -66,6 +152,60 @@ pub fn replay(scratch: &std::path::Path, regs: &[Reg]) -> RunResult {
     match mc_core::catch(|| replay_inner(scratch, regs)) {
         Ok(r) => r,
         Err(e) => crate::sys::panic_result(e),
+    }
+}
+
+/// judge one accepted registration against what was stored before it
+fn judge_accepted(signer: &Signer, saved: &SignerWithStake, before: &[SignerWithStake], stakes: &BTreeMap<String, u64>, rec_epoch: mithril_common::entities::Epoch, ctx: &serde_json::Value, violations: &mut Vec<Violation>) {
+    // the key must not be registered already (by another party) for this round: the KEY, whatever
+    // the bytes of the proof of possession that accompanies it
+    let vk = signer.verification_key_for_concatenation.to_bytes();
+    if let Some(other) = before.iter().find(|s| s.verification_key_for_concatenation.to_bytes()[..96] == vk[..96] && s.party_id != saved.party_id) {
+        let same_pop = other.verification_key_for_concatenation.to_bytes() == vk;
+        violations.push(Violation {
+            key: if same_pop {
+                "C07/aggregator-accepts-key-already-registered-by-another-pool".into()
+            } else {
+                "C07/aggregator-accepts-key-already-registered-by-another-pool:malleated-proof-of-possession".into()
+            },
+            what: format!(
+                "pool {} registered a verification key that pool {} had already registered for epoch {}{}: accepted and stored",
+                saved.party_id,
+                other.party_id,
+                rec_epoch,
+                if same_pop { "" } else { " (same key, proof of possession re-encoded with a cofactor-subgroup point)" }
+            ),
+            replay: ctx.clone(),
+        });
+    }
+    // the KES signature must have been made at an evolution within one period of the ANNOUNCED one
+    if signer.operational_certificate.is_some() && !announced_matches_signature(signer) {
+        violations.push(Violation {
+            key: "C07/aggregator-accepts-unverified-announced-kes-evolution".into(),
+            what: format!(
+                "registration of {} accepted and stored with announced kes_evolutions = {:?} although its KES signature verifies at evolution(s) {:?} only (the aggregator checked it against the chain-derived evolution and kept the announced value)",
+                saved.party_id,
+                signer.kes_evolutions.map(|k| k.0),
+                signature_evolutions(signer)
+            ),
+            replay: ctx.clone(),
+        });
+    }
+    // party id derived from the certificate's cold key; stake from the distribution
+    let cert_party = signer.operational_certificate.as_ref().and_then(|c| c.compute_protocol_party_id().ok());
+    if cert_party.as_deref() != Some(saved.party_id.as_str()) {
+        violations.push(Violation {
+            key: "C07/aggregator-party-id-not-from-cold-key".into(),
+            what: format!("recorded party id {} is not the pool id of the certificate's cold key {:?}", saved.party_id, cert_party),
+            replay: ctx.clone(),
+        });
+    }
+    if stakes.get(&saved.party_id) != Some(&saved.stake) {
+        violations.push(Violation {
+            key: "C07/aggregator-stake-not-from-distribution".into(),
+            what: format!("recorded stake {} for {} differs from the stake distribution {:?}", saved.stake, saved.party_id, stakes.get(&saved.party_id)),
+            replay: ctx.clone(),
+        });
     }
 }
 
@@ -85,14 +225,24 @@ fn replay_inner(scratch: &std::path::Path, regs: &[Reg]) -> RunResult {
         let mut violations = vec![];
         let mut answers = vec![];
         let mut accepted = 0;
+        let mut panicked = false;
         for (n, r) in regs.iter().enumerate() {
             let Some(signer) = build(&w, r) else {
                 answers.push("unbuildable".to_string());
                 continue;
             };
             let before: Vec<SignerWithStake> = w.deps.verification_key_store.get_signers(rec_epoch).await.ok().flatten().unwrap_or_default();
-            let res = w.deps.signer_registerer.register_signer(rec_epoch, &signer).await;
-            let ok = res.is_ok();
+            let res = match CatchUnwind(Box::pin(w.deps.signer_registerer.register_signer(rec_epoch, &signer))).await {
+                Ok(res) => res,
+                Err(p) => {
+                    // the handler of this request died; nothing is answered to the registrant. The
+                    // property is about what is ACCEPTED: a panic is an outcome, not a verdict. The
+                    // node is not used any further in this history.
+                    answers.push(format!("handler-panicked@{}:{}", mc_core::last_panic_location(), p.chars().take(60).collect::<String>()));
+                    panicked = true;
+                    break;
+                }
+            };
             answers.push(match &res {
                 Ok(_) => "accepted".to_string(),
                 Err(e) => format!("refused:{}", format!("{e}").chars().take(40).collect::<String>()),
@@ -100,37 +250,8 @@ fn replay_inner(scratch: &std::path::Path, regs: &[Reg]) -> RunResult {
             let ctx = json!({"replay": replay_json, "step": n, "registration": r, "answers": answers});
             if let Ok(saved) = &res {
                 accepted += 1;
-                // the key must not be registered already (by another party) for this round
-                if let Some(other) = before.iter().find(|s| {
-                    s.verification_key_for_concatenation.to_bytes() == signer.verification_key_for_concatenation.to_bytes() && s.party_id != saved.party_id
-                }) {
-                    violations.push(Violation {
-                        key: "C07/aggregator-accepts-key-already-registered-by-another-pool".into(),
-                        what: format!(
-                            "pool {} registered a verification key that pool {} had already registered for epoch {}: accepted and stored",
-                            saved.party_id, other.party_id, rec_epoch
-                        ),
-                        replay: ctx.clone(),
-                    });
-                }
-                // party id derived from the certificate's cold key; stake from the distribution
-                let cert_party = signer.operational_certificate.as_ref().and_then(|c| c.compute_protocol_party_id().ok());
-                if cert_party.as_deref() != Some(saved.party_id.as_str()) {
-                    violations.push(Violation {
-                        key: "C07/aggregator-party-id-not-from-cold-key".into(),
-                        what: format!("recorded party id {} is not the pool id of the certificate's cold key {:?}", saved.party_id, cert_party),
-                        replay: ctx.clone(),
-                    });
-                }
-                if stakes.get(&saved.party_id) != Some(&saved.stake) {
-                    violations.push(Violation {
-                        key: "C07/aggregator-stake-not-from-distribution".into(),
-                        what: format!("recorded stake {} for {} differs from the stake distribution {:?}", saved.stake, saved.party_id, stakes.get(&saved.party_id)),
-                        replay: ctx.clone(),
-                    });
-                }
+                judge_accepted(&signer, saved, &before, &stakes, rec_epoch, &ctx, &mut violations);
             }
-            let _ = ok;
         }
         // observation: can the stored registrations still be turned into a signer set?
         let stored: Vec<SignerWithStake> = w.deps.verification_key_store.get_signers(rec_epoch).await.ok().flatten().unwrap_or_default();
@@ -139,7 +260,7 @@ fn replay_inner(scratch: &std::path::Path, regs: &[Reg]) -> RunResult {
             canon: json!({"regs": regs, "answers": answers, "stored": stored.len(), "buildable": buildable}).to_string(),
             violations,
             nontrivial: accepted > 0,
-            outcome: format!("accepted={accepted},stored={},signer_set_buildable={buildable}", stored.len()),
+            outcome: format!("accepted={accepted},stored={},signer_set_buildable={buildable}{}", stored.len(), if panicked { ",handler-panicked" } else { "" }),
             disabled: false,
         }
     });
@@ -148,19 +269,188 @@ fn replay_inner(scratch: &std::path::Path, regs: &[Reg]) -> RunResult {
     res
 }
 
+// ------------------------------------------------------------------------------------------------
+// concurrent registrations
+// ------------------------------------------------------------------------------------------------
+
+/// The `SignerRecorder` dependency of the leader (in production: a database write awaited between
+/// the duplicate-key check and the save). Here it only parks the calling request until the
+/// schedule releases it; it changes no value.
+#[derive(Default)]
+struct GateRecorder {
+    gates: Mutex<HashMap<String, Arc<tokio::sync::Semaphore>>>,
+    arrived: Mutex<Vec<String>>,
+}
+
+impl GateRecorder {
+    fn gate(&self, id: &str) -> Arc<tokio::sync::Semaphore> {
+        self.gates.lock().unwrap().entry(id.to_string()).or_insert_with(|| Arc::new(tokio::sync::Semaphore::new(0))).clone()
+    }
+}
+
+#[async_trait::async_trait]
+impl SignerRecorder for GateRecorder {
+    async fn record_signer_registration(&self, signer_id: String) -> mithril_common::StdResult<()> {
+        self.arrived.lock().unwrap().push(signer_id.clone());
+        let gate = self.gate(&signer_id);
+        gate.acquire().await.expect("gate").forget();
+        Ok(())
+    }
+}
+
+/// the party a registration is recorded under (the pool whose certificate it carries)
+fn party_of(r: &Reg) -> usize {
+    match r {
+        Reg::Honest(i) | Reg::NoEvolution(i) | Reg::WrongEvolution(i) | Reg::ClaimedEmpty(i) | Reg::ClaimedUnknown(i) => *i,
+        Reg::StolenKey { by, .. } | Reg::ClaimedId { by, .. } | Reg::StolenKeyAlteredPop { by, .. } => *by,
+        Reg::Announced { pool, .. } => *pool,
+    }
+}
+
+/// `schedule`: each request index appears twice — first: start the request and let it run to the
+/// suspension point (or to its end), second: release it and let it finish.
+pub fn replay_concurrent(scratch: &std::path::Path, pair: &[Reg; 2], schedule: &[usize]) -> RunResult {
+    match mc_core::catch(|| replay_concurrent_inner(scratch, pair, schedule)) {
+        Ok(r) => r,
+        Err(e) => crate::sys::panic_result(e),
+    }
+}
+
+fn replay_concurrent_inner(scratch: &std::path::Path, pair: &[Reg; 2], schedule: &[usize]) -> RunResult {
+    let dir = fresh_dir(scratch);
+    let rt = tokio::runtime::Builder::new_current_thread().enable_all().build().expect("tokio runtime");
+    let replay_json = json!({"concurrent": pair, "schedule": schedule});
+    let res = rt.block_on(async {
+        let mut w = World::new(dir.clone(), 3, false).await;
+        let mut log = vec![];
+        apply_mut(&mut w, &Ev::Tick, &mut log).await;
+        let tp = w.time_point().await;
+        let rec_epoch = tp.epoch.offset_to_recording_epoch();
+        let all: std::collections::BTreeSet<usize> = (0..w.fixture.signers_with_stake().len()).collect();
+        let stakes: BTreeMap<String, u64> = w.signers_with_stake_in(&all, *tp.epoch).iter().map(|s| (s.party_id.clone(), s.stake)).collect();
+        // the real leader on the running aggregator's store, same round as the aggregator opened
+        let recorder = Arc::new(GateRecorder::default());
+        let leader = Arc::new(MithrilSignerRegistrationLeader::new(
+            w.deps.verification_key_store.clone(),
+            recorder.clone(),
+            Arc::new(MithrilSignerRegistrationVerifier::new(w.outside.chain_observer.clone())),
+        ));
+        leader.open_registration_round(rec_epoch, stakes.clone()).await.expect("round opened");
+        let signers: Vec<Option<Signer>> = pair.iter().map(|r| build(&w, r)).collect();
+        if signers.iter().any(|s| s.is_none()) {
+            return RunResult { canon: "unbuildable".into(), violations: vec![], nontrivial: false, outcome: "unbuildable".into(), disabled: false };
+        }
+        let signers: Vec<Signer> = signers.into_iter().flatten().collect();
+        let ids: Vec<String> = pair.iter().map(|r| w.fixture.signers()[party_of(r)].party_id.clone()).collect();
+        let mut handles: Vec<Option<tokio::task::JoinHandle<_>>> = vec![None, None];
+        let mut results: Vec<Option<Result<SignerWithStake, String>>> = vec![None, None];
+        let mut started = [false, false];
+        let mut machinery = None;
+        for &i in schedule {
+            if !started[i] {
+                started[i] = true;
+                let (l, s) = (leader.clone(), signers[i].clone());
+                handles[i] = Some(tokio::spawn(async move { l.register_signer(rec_epoch, &s).await }));
+                // run it to the suspension point or to its end
+                let mut spins = 0;
+                loop {
+                    let done = handles[i].as_ref().unwrap().is_finished();
+                    let parked = recorder.arrived.lock().unwrap().contains(&ids[i]);
+                    if done || parked {
+                        break;
+                    }
+                    spins += 1;
+                    if spins > 100_000 {
+                        machinery = Some(format!("request {i} neither finished nor reached the suspension point"));
+                        break;
+                    }
+                    tokio::task::yield_now().await;
+                }
+            } else {
+                recorder.gate(&ids[i]).add_permits(1);
+                results[i] = Some(match handles[i].take().unwrap().await {
+                    Ok(Ok(s)) => Ok(s),
+                    Ok(Err(e)) => Err(format!("refused:{}", format!("{e}").chars().take(40).collect::<String>())),
+                    Err(e) => Err(format!("handler-panicked:{}", format!("{e}").chars().take(60).collect::<String>())),
+                });
+            }
+        }
+        if let Some(m) = machinery {
+            panic!("{m}");
+        }
+        let answers: Vec<String> = results.iter().map(|r| match r {
+            Some(Ok(_)) => "accepted".to_string(),
+            Some(Err(e)) => e.clone(),
+            None => "not-finished".to_string(),
+        }).collect();
+        let ctx = json!({"replay": replay_json, "answers": answers});
+        let mut violations = vec![];
+        let accepted: Vec<(usize, &SignerWithStake)> = results.iter().enumerate().filter_map(|(i, r)| r.as_ref().and_then(|r| r.as_ref().ok()).map(|s| (i, s))).collect();
+        // each accepted registration on its own (nothing was stored before the pair)
+        for (i, saved) in &accepted {
+            judge_accepted(&signers[*i], saved, &[], &stakes, rec_epoch, &ctx, &mut violations);
+        }
+        // two accepted registrations of different parties with one key: one of them was accepted
+        // although the key was registered already
+        if let [(i, a), (j, b)] = accepted.as_slice()
+            && a.party_id != b.party_id
+            && signers[*i].verification_key_for_concatenation.to_bytes()[..96] == signers[*j].verification_key_for_concatenation.to_bytes()[..96]
+        {
+            violations.push(Violation {
+                key: "C07/aggregator-accepts-key-already-registered-by-another-pool:concurrent-registrations".into(),
+                what: format!(
+                    "two registrations of one verification key, by {} and by {}, handled concurrently (schedule {:?}: both pass the duplicate check before either is saved) are both accepted and stored; handled one after the other the second is refused",
+                    a.party_id, b.party_id, schedule
+                ),
+                replay: ctx.clone(),
+            });
+        }
+        let stored: Vec<SignerWithStake> = w.deps.verification_key_store.get_signers(rec_epoch).await.ok().flatten().unwrap_or_default();
+        let buildable = stored.is_empty() || SignerBuilder::new(&stored, &protocol_parameters()).is_ok();
+        RunResult {
+            canon: json!({"pair": pair, "schedule": schedule, "answers": answers, "stored": stored.len(), "buildable": buildable}).to_string(),
+            violations,
+            nontrivial: !accepted.is_empty(),
+            outcome: format!("concurrent:accepted={},stored={},signer_set_buildable={buildable}", accepted.len(), stored.len()),
+            disabled: false,
+        }
+    });
+    drop(rt);
+    let _ = std::fs::remove_dir_all(&dir);
+    res
+}
+
+/// the six interleavings of two requests with one suspension point each
+fn schedules() -> Vec<Vec<usize>> {
+    vec![vec![0, 0, 1, 1], vec![0, 1, 0, 1], vec![0, 1, 1, 0], vec![1, 0, 0, 1], vec![1, 0, 1, 0], vec![1, 1, 0, 0]]
+}
+
+const ANNOUNCED: [Option<u64>; 8] = [None, Some(1), Some(2), Some(40), Some(63), Some(64), Some(i64::MAX as u64), Some(u64::MAX)];
+
 pub fn run(ctx: &Ctx) -> ! {
     let scratch = ctx.scratch();
     let mut rep = Report::new(
         "exploration",
-        "aggregator route: all sequences of <= L registrations (honest, another pool's key under own certificate and KES signature, \
-         missing / wrong announced evolution, valid registration claiming another / no / an unknown party id) sent to the real SignerRegisterer of a running aggregator with an open registration \
-         round; the verification-key store is inspected after every step; non-trivial = at least one registration accepted",
+        "aggregator route: (1) all sequences of <= L registrations (honest, another pool's key under own certificate and KES signature — with the \
+         victim's proof of possession or a re-encoding of it by a cofactor-subgroup point —, honest registration announcing no / another / an extreme \
+         KES evolution, valid registration claiming another / no / an unknown party id) sent to the real SignerRegisterer of a running aggregator \
+         with an open registration round; the verification-key store is inspected after every step; (2) all pairs of registrations recorded under \
+         different pools, handled concurrently by the real leader registerer under all 6 interleavings around the recorder suspension point; \
+         non-trivial = at least one registration accepted",
     );
     if let Some(path) = &ctx.replay {
         let v = mc_core::load_replay(path);
         let r = if v.get("replay").is_some() { v["replay"].clone() } else { v.clone() };
-        let regs: Vec<Reg> = serde_json::from_value(r["registrations"].clone()).expect("registrations");
-        let res = replay(&scratch, &regs);
+        let res = if r.get("concurrent").is_some() {
+            let pair: [Reg; 2] = serde_json::from_value(r["concurrent"].clone()).expect("pair");
+            let schedule: Vec<usize> = serde_json::from_value(r["schedule"].clone()).expect("schedule");
+            rep.sample(json!({"concurrent": pair, "schedule": schedule}));
+            replay_concurrent(&scratch, &pair, &schedule)
+        } else {
+            let regs: Vec<Reg> = serde_json::from_value(r["registrations"].clone()).expect("registrations");
+            rep.sample(json!({"registrations": regs}));
+            replay(&scratch, &regs)
+        };
         eprintln!("replayed: {}", res.outcome);
         rep.eval();
         for v in res.violations {
@@ -168,9 +458,9 @@ pub fn run(ctx: &Ctx) -> ! {
         }
         rep.nontrivial(&0);
         rep.nontrivial(&1);
-        rep.sample(json!({"registrations": regs}));
         rep.finish(ctx);
     }
+    let thorough = ctx.tier.pick(false, true);
     let mut alpha = vec![];
     for i in 0..3 {
         alpha.push(Reg::Honest(i));
@@ -182,8 +472,22 @@ pub fn run(ctx: &Ctx) -> ! {
             }
         }
     }
-    alpha.push(Reg::NoEvolution(0));
-    alpha.push(Reg::WrongEvolution(1));
+    // announced evolution: every value for pool 2, and the two of the first version of this check
+    for value in ANNOUNCED {
+        alpha.push(Reg::Announced { pool: 2, value });
+    }
+    alpha.push(Reg::Announced { pool: 0, value: None });
+    alpha.push(Reg::Announced { pool: 1, value: Some(40) });
+    // re-encoded proof of possession: one thief per victim (all six pairs in the thorough tier)
+    for by in 0..3usize {
+        for of in 0..3usize {
+            if by != of && (thorough || (by + 2) % 3 == of) {
+                for element in [1u8, 2] {
+                    alpha.push(Reg::StolenKeyAlteredPop { by, of, element });
+                }
+            }
+        }
+    }
     for by in 0..3 {
         for claims in 0..3 {
             if by != claims {
@@ -193,8 +497,24 @@ pub fn run(ctx: &Ctx) -> ! {
     }
     alpha.push(Reg::ClaimedEmpty(0));
     alpha.push(Reg::ClaimedUnknown(1));
-    let len = ctx.tier.pick(2, 3);
-    let jobs: Vec<Vec<Reg>> = sequences(alpha.len(), len).into_iter().filter(|s| !s.is_empty()).map(|s| s.iter().map(|i| alpha[*i]).collect()).collect();
+    // thorough: length 3 over the sub-alphabet without the claimed-id kinds and with 3 announced values
+    let len = 2;
+    let mut jobs: Vec<Vec<Reg>> = sequences(alpha.len(), len).into_iter().filter(|s| !s.is_empty()).map(|s| s.iter().map(|i| alpha[*i]).collect()).collect();
+    let mut len3_alphabet = 0;
+    if thorough {
+        let sub: Vec<Reg> = alpha
+            .iter()
+            .copied()
+            .filter(|r| match r {
+                Reg::Honest(_) | Reg::StolenKey { .. } => true,
+                Reg::StolenKeyAlteredPop { by, of, .. } => (by + 2) % 3 == *of,
+                Reg::Announced { pool: 2, value } => matches!(value, None | Some(1) | Some(40)),
+                _ => false,
+            })
+            .collect();
+        len3_alphabet = sub.len();
+        jobs.extend(sequences(sub.len(), 3).into_iter().filter(|s| s.len() == 3).map(|s| s.iter().map(|i| sub[*i]).collect::<Vec<Reg>>()));
+    }
     {
         // vacuity guard: a stake recorded under the wrong pool is only visible when stakes differ
         let st: std::collections::BTreeSet<u64> = crate::world::fixture(3).signers_with_stake().iter().map(|s| s.stake).collect();
@@ -205,19 +525,28 @@ pub fn run(ctx: &Ctx) -> ! {
         rep.extra("fixture_stakes_pairwise_distinct", json!(st));
     }
     rep.extra("alphabet", json!(alpha.len()));
-    rep.extra("max_sequence_length", json!(len));
+    rep.extra("max_sequence_length", json!(if thorough { 3 } else { 2 }));
+    rep.extra("length_3_sub_alphabet", json!(len3_alphabet));
+    rep.extra("announced_evolutions", json!(ANNOUNCED.iter().map(|a| a.map(|v| v.to_string())).collect::<Vec<_>>()));
     let results = par_map(&jobs, ctx.threads(), |_, regs| replay(&scratch, regs));
     let mut unbuildable = 0u64;
+    let mut panics = 0u64;
     for (regs, r) in jobs.iter().zip(results) {
         rep.eval();
         rep.outcome(&r.outcome);
         if r.nontrivial {
             rep.nontrivial(&r.canon);
         }
-        if r.outcome.ends_with("signer_set_buildable=false") {
+        if r.outcome.contains("signer_set_buildable=false") {
             unbuildable += 1;
         }
-        if rep.evaluations % 37 == 2 {
+        if r.outcome.contains("handler-panicked") {
+            panics += 1;
+            if !rep.extras.contains_key("observation_example_registration_handler_panic") {
+                rep.extra("observation_example_registration_handler_panic", json!({"registrations": regs, "canon": r.canon}));
+            }
+        }
+        if rep.evaluations % 97 == 2 {
             rep.sample(json!({"registrations": regs, "outcome": r.outcome}));
         }
         for v in r.violations {
@@ -225,6 +554,51 @@ pub fn run(ctx: &Ctx) -> ! {
         }
     }
     rep.extra("observation_sequences_after_which_the_stored_registrations_cannot_form_a_signer_set", json!(unbuildable));
-    rep.assume("aggregator route: keys, operational certificates and KES keys are the repository's deterministic fixtures; the Cardano node (KES period, stake distribution) is the repository's FakeChainObserver");
+    rep.extra("observation_sequences_in_which_the_registration_handler_panicked", json!(panics));
+
+    // concurrent pairs
+    let mut calpha = vec![];
+    for i in 0..3 {
+        calpha.push(Reg::Honest(i));
+    }
+    for by in 0..3 {
+        for of in 0..3 {
+            if by != of {
+                calpha.push(Reg::StolenKey { by, of });
+            }
+        }
+    }
+    let mut cjobs: Vec<([Reg; 2], Vec<usize>)> = vec![];
+    for (i, a) in calpha.iter().enumerate() {
+        for b in calpha.iter().skip(i + 1) {
+            if party_of(a) != party_of(b) {
+                for s in schedules() {
+                    cjobs.push(([*a, *b], s));
+                }
+            }
+        }
+    }
+    rep.extra("concurrent_pairs", json!(cjobs.len() / 6));
+    rep.extra("concurrent_schedules_per_pair", json!(6));
+    let results = par_map(&cjobs, ctx.threads(), |_, (pair, s)| replay_concurrent(&scratch, pair, s));
+    for ((pair, s), r) in cjobs.iter().zip(results) {
+        rep.eval();
+        rep.outcome(&r.outcome);
+        if r.nontrivial {
+            rep.nontrivial(&r.canon);
+        }
+        if r.outcome.starts_with("PANIC") {
+            rep.machinery_error(format!("concurrent replay failed: {} ({pair:?}, {s:?})", r.outcome));
+        }
+        if rep.evaluations % 97 == 2 {
+            rep.sample(json!({"concurrent": pair, "schedule": s, "outcome": r.outcome}));
+        }
+        for v in r.violations {
+            rep.push_violation(v);
+        }
+    }
+    rep.assume("aggregator route: keys, operational certificates and KES keys are the repository's deterministic fixtures; the Cardano node (KES period 0, stake distribution) is the repository's FakeChainObserver, so every fixture KES signature is made at evolution 0 = the chain-derived evolution");
+    rep.assume("concurrent family: the leader registerer is the real MithrilSignerRegistrationLeader built by the harness from the running aggregator's verification-key store and a real MithrilSignerRegistrationVerifier on the same chain observer, with the round (epoch, stake distribution) the aggregator opened; only its SignerRecorder dependency is the harness' (it parks the request, changes no value); requests are real tokio tasks on the current-thread runtime");
+    rep.assume("a panic of the registration handler is counted as an outcome (the registrant gets no acceptance and nothing is stored), not as a violation of C07");
     rep.finish(ctx)
 }
